@@ -7,6 +7,7 @@ import (
 	"crypto/sha256"
 	"fmt"
 	"math/big"
+	"strings"
 	"testing"
 
 	"github.com/zenon-network/go-zenon/chain/nom"
@@ -55,6 +56,25 @@ func (s *c10state) ackMomentum(r *nom.AccountBlock) *nom.Momentum {
 		panic("ack momentum missing")
 	}
 	return m
+}
+
+// bridgePair: the token pair the bridge contract records for (chain, token address) just before receive r
+// (the frontier state when that state is no longer served).
+func (s *c10state) bridgePair(ct types.Address, r *nom.AccountBlock, chain uint32, tokenAddress string) *definition.TokenPair {
+	st := s.h.A.Chain.GetAccountStore(ct, r.Previous())
+	if st == nil {
+		st = s.h.A.Chain.GetFrontierAccountStore(ct)
+	}
+	ni, err := definition.GetNetworkInfoVariable(st.Storage(), 2, chain)
+	if err != nil || ni == nil {
+		return nil
+	}
+	for i := range ni.TokenPairs {
+		if ni.TokenPairs[i].TokenAddress == strings.ToLower(tokenAddress) {
+			return &ni.TokenPairs[i]
+		}
+	}
+	return nil
 }
 
 func windowOpen(now, reg, lock, revoke int64) bool {
@@ -329,12 +349,13 @@ func (s *c10state) process(ct types.Address, r, snd *nom.AccountBlock, merr erro
 		if merr == nil {
 			p := new(definition.UnwrapTokenParam)
 			_ = definition.ABIBridge.UnpackMethod(p, m.Name, snd.Data)
+			// the pair (token, delay, owned or not) is the one the contract records for the request's token address
 			tok := types.ZnnTokenStandard
-			if p.ChainId == 124 {
-				tok = types.QsrTokenStandard
+			if pr := s.bridgePair(ct, r, p.ChainId, p.TokenAddress); pr != nil {
+				tok = pr.TokenStandard
 			}
 			s.ents[fmt.Sprintf("unwrap/%s/%d", p.TransactionHash, p.LogIndex)] = &c10ent{kind: "unwrap", id: p.TransactionHash, owner: p.ToAddress, token: tok,
-				amount: new(big.Int).Set(p.Amount), fromHeight: am.Height + 20}
+				amount: new(big.Int).Set(p.Amount), fromHeight: am.Height, name: fmt.Sprintf("%d/%s", p.ChainId, strings.ToLower(p.TokenAddress))}
 		}
 	case "bridge.RevokeUnwrapRequest":
 		if merr == nil {
@@ -342,7 +363,6 @@ func (s *c10state) process(ct types.Address, r, snd *nom.AccountBlock, merr erro
 			_ = definition.ABIBridge.UnpackMethod(p, m.Name, snd.Data)
 			if e := s.ents[fmt.Sprintf("unwrap/%s/%d", p.TransactionHash, p.LogIndex)]; e != nil {
 				e.consumed = true // a revoked request can never be redeemed
-				e.name = "revoked"
 			}
 		}
 	case "bridge.Redeem":
@@ -353,9 +373,40 @@ func (s *c10state) process(ct types.Address, r, snd *nom.AccountBlock, merr erro
 		var to types.Address
 		amt := new(big.Int)
 		tok := types.ZnnTokenStandard
+		owned := false
 		if e != nil {
-			okT, why = am.Height >= e.fromHeight, fmt.Sprintf("redeemable from height %d, now %d", e.fromHeight, am.Height)
+			// "after its delay": the delay the contract records for the request's pair when the redeem is executed
+			delay := uint64(20)
+			var chain uint32
+			var taddr string
+			_, _ = fmt.Sscanf(e.name, "%d/%s", &chain, &taddr)
+			if pr := s.bridgePair(ct, r, chain, taddr); pr != nil {
+				delay, owned = uint64(pr.RedeemDelay), pr.Owned
+			}
+			okT, why = am.Height >= e.fromHeight+delay, fmt.Sprintf("registered at height %d, delay %d, now %d", e.fromHeight, delay, am.Height)
 			to, amt, tok = e.owner, e.amount, e.token
+		}
+		if owned && merr == nil && e != nil && !e.consumed && okT {
+			// a bridge-owned token is minted to the recipient through the token contract: one zero-amount send carrying
+			// Mint(token, amount, recipient)
+			ds := r.DescendantBlocks
+			if len(ds) != 1 || ds[0].ToAddress != types.TokenContract || ds[0].Amount.Sign() != 0 {
+				c.Failf("C10/release-shape", "%s of a bridge-owned token: %d descendant sends (want one mint request to the token contract)", what, len(ds))
+			}
+			mp := new(definition.MintParam)
+			if err := definition.ABIToken.UnpackMethod(mp, definition.MintMethodName, ds[0].Data); err != nil {
+				c.Failf("C10/release-shape", "%s: the send to the token contract is not a mint request: %v", what, err)
+			}
+			if mp.ReceiveAddress != to {
+				c.Failf("C10/released-to-other", "%s mints %v to %v, the entitled party is %v", what, mp.Amount, mp.ReceiveAddress, to)
+			}
+			if mp.Amount.Cmp(amt) != 0 || mp.TokenStandard != tok {
+				c.Failf("C10/release-amount", "%s mints %v %v, the signed request says %v %v", what, mp.Amount, mp.TokenStandard, amt, tok)
+			}
+			e.consumed = true
+			s.releases++
+			c.Class("release:unwrap-minted")
+			return
 		}
 		release(e, fmt.Sprintf("unwrap request %s/%d", p.TransactionHash.String()[:8], p.LogIndex), to, tok, amt, okT, why)
 	case "sentinel.Register":
@@ -467,6 +518,7 @@ func TestC10(t *testing.T) {
 			c.Class("bridge-world")
 			if err := sim.BridgeScript(h, c.Int("c10.wraps", 1, 6), 0); err != nil {
 				c.Class("bridge-script-incomplete")
+				c.Class("bridge-script-incomplete: " + trunc(err.Error(), 60))
 			}
 			if err := sim.LiquidityScript(h); err != nil {
 				c.Class("liquidity-script-incomplete")
@@ -608,6 +660,11 @@ func TestC10(t *testing.T) {
 					h.Produce(0)
 				}
 			},
+		}
+		if bridgeWorld {
+			flow := sim.BridgeFlowIntents()
+			acts["bridgeFlow"] = func() { h.ActIntentOf(flow, "bridgeFlow") }
+			acts["bridgeFlow2"] = acts["bridgeFlow"]
 		}
 		c.Repeat(acts, inv)
 		for i := 0; i < 2 && !h.Dead; i++ {
